@@ -3558,9 +3558,14 @@ func (a *Association) handleAbort(c *chunkAbort) error {
 		fmt.Fprintf(&errStr, "(%s)", e)
 	}
 
+	err := fmt.Errorf("[%s] %w: %s", a.name, ErrChunk, errStr.String())
+	// close() wakes a blocked Shutdown call: the cause has to be on record by then
+	// (the read loop records it again on its way out, which is too late for that caller).
+	a.readLoopErr = err
+
 	_ = a.close()
 
-	return fmt.Errorf("[%s] %w: %s", a.name, ErrChunk, errStr.String())
+	return err
 }
 
 // createForwardTSN generates ForwardTSN chunk.
